@@ -211,17 +211,20 @@ struct RefJac {
 inline RefJac ref_jacobian(int S, const std::vector<double> &T) {
   RefJac J; J.S = S; J.N = (int)T.size(); J.nb = nbasis(S, J.N); J.M = 2 * S;
   int N = J.N, nb = J.nb;
-  if (N > JMAX) { fprintf(stderr, "ref_jacobian: N too large\n"); abort(); }
-  Dual::n() = N;
-  std::vector<Dual> Td(N); for (int i = 0; i < N; ++i) Td[i] = Dual::var((LD)T[i], i);
-  std::vector<std::vector<Dual>> P(N + 1, std::vector<Dual>(nb)), bs(3, std::vector<Dual>(nb)), be(3, std::vector<Dual>(nb));
-  for (int b = 0; b < nb; ++b) {
-    if (b <= N) P[b][b] = Dual((LD)1); else { int r = b - (N + 1), side = r / (S - 1), k = r % (S - 1) + 1; (side == 0 ? bs : be)[k - 1][b] = Dual((LD)1); }
-  }
-  RefSpline<Dual> R = ref_solve<Dual>(S, Td, P, bs, be);
   int n = J.M * N;
   J.C.assign(nb, std::vector<LD>(n)); J.dT.assign(nb, std::vector<std::vector<LD>>(n, std::vector<LD>(N)));
-  for (int b = 0; b < nb; ++b) for (int r = 0; r < n; ++r) { J.C[b][r] = R.C[r][b].v; for (int i = 0; i < N; ++i) J.dT[b][r][i] = R.C[r][b].d[i]; }
+  // N > JMAX: the durations are differentiated in windows of JMAX (one dense solve per window, the other durations held constant)
+  for (int first = 0; first < N; first += JMAX) {
+    const int cnt = std::min(JMAX, N - first);
+    Dual::n() = cnt;
+    std::vector<Dual> Td(N); for (int i = 0; i < N; ++i) Td[i] = (i >= first && i < first + cnt) ? Dual::var((LD)T[i], i - first) : Dual((LD)T[i]);
+    std::vector<std::vector<Dual>> P(N + 1, std::vector<Dual>(nb)), bs(3, std::vector<Dual>(nb)), be(3, std::vector<Dual>(nb));
+    for (int b = 0; b < nb; ++b) {
+      if (b <= N) P[b][b] = Dual((LD)1); else { int r = b - (N + 1), side = r / (S - 1), k = r % (S - 1) + 1; (side == 0 ? bs : be)[k - 1][b] = Dual((LD)1); }
+    }
+    RefSpline<Dual> R = ref_solve<Dual>(S, Td, P, bs, be);
+    for (int b = 0; b < nb; ++b) for (int r = 0; r < n; ++r) { if (first == 0) J.C[b][r] = R.C[r][b].v; for (int i = 0; i < cnt; ++i) J.dT[b][r][first + i] = R.C[r][b].d[i]; }
+  }
   return J;
 }
 // data of problem p, coordinate d, expressed in the basis (alpha_b)
